@@ -68,7 +68,16 @@ fn ty_back(ty: &Ty<I>) -> Result<T, String> {
         TyKind::Adt(id, s) => T::App(id.0.index, args(s)?),
         TyKind::Tuple(_, s) => T::Tuple(args(s)?),
         TyKind::Slice(x) => T::Slice(Box::new(ty_back(x)?)),
-        TyKind::Ref(m, _, x) => T::Ref(*m == Mutability::Mut, L::Static, Box::new(ty_back(x)?)),
+        TyKind::Ref(m, l, x) => T::Ref(
+            *m == Mutability::Mut,
+            match l.data(i) {
+                LifetimeData::Static => L::Static,
+                LifetimeData::Placeholder(p) => L::Ph(p.ui.counter, p.idx),
+                LifetimeData::BoundVar(b) => L::Var(b.index),
+                other => return Err(format!("unexpected lifetime {:?}", other)),
+            },
+            Box::new(ty_back(x)?),
+        ),
         TyKind::Raw(m, x) => T::Raw(*m == Mutability::Mut, Box::new(ty_back(x)?)),
         TyKind::Array(x, c) => T::Arr(
             Box::new(ty_back(x)?),
@@ -104,6 +113,25 @@ fn erase_lt(t: &T) -> T {
 /// One-way matching: is `term` an instance of `pat`? Pattern variables (types and consts) bind consistently; the
 /// term's own variables are rigid.
 fn matches(pat: &T, term: &T, b: &mut BTreeMap<usize, T>, cb: &mut BTreeMap<usize, C>) -> bool {
+    // lifetimes: a lifetime variable of the pattern matches any lifetime (consistently; they share `cb`'s key space
+    // shifted by 10_000), a concrete lifetime only itself
+    fn lt(p: &L, t: &L, cb: &mut BTreeMap<usize, C>) -> bool {
+        let enc = |l: &L| match l {
+            L::Static => C::Val(u32::MAX),
+            L::Ph(u, k) => C::Ph(*u, *k),
+            L::Var(v) => C::Var(*v),
+        };
+        match p {
+            L::Var(v) => match cb.get(&(10_000 + *v)) {
+                Some(x) => *x == enc(t),
+                None => {
+                    cb.insert(10_000 + *v, enc(t));
+                    true
+                }
+            },
+            other => other == t,
+        }
+    }
     match (pat, term) {
         (T::Var(v), t) => match b.get(v) {
             Some(x) => x == t,
@@ -115,7 +143,7 @@ fn matches(pat: &T, term: &T, b: &mut BTreeMap<usize, T>, cb: &mut BTreeMap<usiz
         (T::App(c1, a1), T::App(c2, a2)) => c1 == c2 && a1.len() == a2.len() && a1.iter().zip(a2).all(|(x, y)| matches(x, y, b, cb)),
         (T::Tuple(a1), T::Tuple(a2)) => a1.len() == a2.len() && a1.iter().zip(a2).all(|(x, y)| matches(x, y, b, cb)),
         (T::Slice(x), T::Slice(y)) => matches(x, y, b, cb),
-        (T::Ref(m1, _, x), T::Ref(m2, _, y)) => m1 == m2 && matches(x, y, b, cb),
+        (T::Ref(m1, l1, x), T::Ref(m2, l2, y)) => m1 == m2 && lt(l1, l2, cb) && matches(x, y, b, cb),
         (T::Raw(m1, x), T::Raw(m2, y)) => m1 == m2 && matches(x, y, b, cb),
         (T::Arr(x, c1), T::Arr(y, c2)) => {
             matches(x, y, b, cb)
@@ -174,7 +202,7 @@ fn vary(r: &mut Rng, t: &T, kinds: &[K], cfg: &TermCfg) -> T {
         T::App(c, a) => T::App(*c, a.iter().map(|x| vary(r, x, kinds, cfg)).collect()),
         T::Tuple(a) => T::Tuple(a.iter().map(|x| vary(r, x, kinds, cfg)).collect()),
         T::Slice(x) => T::Slice(Box::new(vary(r, x, kinds, cfg))),
-        T::Ref(m, _, x) => T::Ref(*m, L::Static, Box::new(vary(r, x, kinds, cfg))),
+        T::Ref(m, l, x) => T::Ref(*m, if r.chance(30) { L::Static } else if r.chance(20) { L::Ph(1, 0) } else { l.clone() }, Box::new(vary(r, x, kinds, cfg))),
         T::Raw(m, x) => T::Raw(*m, Box::new(vary(r, x, kinds, cfg))),
         T::Arr(x, c) => T::Arr(Box::new(vary(r, x, kinds, cfg)), if r.chance(30) { C::Val(r.below(3) as u32) } else if matches!(c, C::Var(_)) { C::Val(1) } else { c.clone() }),
         T::Var(_) => {
@@ -203,6 +231,57 @@ fn fix_vars(t: &T, kinds: &[K]) -> T {
         T::Var(v) if !tv.contains(v) => T::Scalar(2),
         o => o.clone(),
     }
+}
+
+/// Renumber the substitution's own variables by first occurrence and drop unused ones (what a real canonical value
+/// looks like).
+fn canonize(tys: &[T], kinds: &[K]) -> (Vec<T>, Vec<K>) {
+    let mut order: Vec<usize> = vec![];
+    fn walk(t: &T, order: &mut Vec<usize>) {
+        match t {
+            T::Var(v) => {
+                if !order.contains(v) {
+                    order.push(*v);
+                }
+            }
+            T::App(_, a) | T::Tuple(a) => a.iter().for_each(|x| walk(x, order)),
+            T::Slice(x) | T::Raw(_, x) => walk(x, order),
+            T::Ref(_, l, x) => {
+                if let L::Var(v) = l {
+                    if !order.contains(v) {
+                        order.push(*v);
+                    }
+                }
+                walk(x, order)
+            }
+            T::Arr(x, c) => {
+                walk(x, order);
+                if let C::Var(v) = c {
+                    if !order.contains(v) {
+                        order.push(*v);
+                    }
+                }
+            }
+            _ => {}
+        }
+    }
+    for t in tys {
+        walk(t, &mut order);
+    }
+    fn ren(t: &T, order: &[usize]) -> T {
+        let p = |v: &usize| order.iter().position(|x| x == v).unwrap();
+        match t {
+            T::Var(v) => T::Var(p(v)),
+            T::App(c, a) => T::App(*c, a.iter().map(|x| ren(x, order)).collect()),
+            T::Tuple(a) => T::Tuple(a.iter().map(|x| ren(x, order)).collect()),
+            T::Slice(x) => T::Slice(Box::new(ren(x, order))),
+            T::Raw(m, x) => T::Raw(*m, Box::new(ren(x, order))),
+            T::Ref(m, l, x) => T::Ref(*m, match l { L::Var(v) => L::Var(p(v)), o => o.clone() }, Box::new(ren(x, order))),
+            T::Arr(x, c) => T::Arr(Box::new(ren(x, order)), match c { C::Var(v) => C::Var(p(v)), o => o.clone() }),
+            o => o.clone(),
+        }
+    }
+    (tys.iter().map(|t| ren(t, &order)).collect(), order.iter().map(|v| kinds[*v]).collect())
 }
 
 fn binders(kinds: &[K], r: &mut Rng) -> CanonicalVarKinds<I> {
@@ -300,12 +379,14 @@ pub fn run(ctx: &Ctx, out: &mut CaseOut) {
         // a sequence of 2-4 answers, merged one after the other
         let (t0, k0) = gen_subst(&mut r, n, None);
         let t0: Vec<T> = t0.iter().map(|t| fix_vars(t, &k0)).collect();
+        let (t0, k0) = canonize(&t0, &k0);
         let mut inputs: Vec<Vec<T>> = vec![t0.clone()];
         let mut guidance = canon_subst(&t0, &k0, &mut r);
         let mut log = vec![format!("start: {:?}", guidance)];
         for _step in 0..1 + r.below(3) {
             let (t1, k1) = gen_subst(&mut r, n, Some(&t0));
             let t1: Vec<T> = t1.iter().map(|t| fix_vars(t, &k1)).collect();
+            let (t1, k1) = canonize(&t1, &k1);
             let c1 = canon_subst(&t1, &k1, &mut r);
             let answer = Canonical { binders: c1.binders.clone(), value: ConstrainedSubst { subst: c1.value.clone(), constraints: Constraints::empty(i) } };
             let cur_back = match back(&guidance) {
@@ -334,7 +415,7 @@ pub fn run(ctx: &Ctx, out: &mut CaseOut) {
                 return;
             }
             for inp in &inputs {
-                let inp: Vec<T> = inp.iter().map(erase_lt).collect();
+                let inp: Vec<T> = inp.clone();
                 if !subst_matches(&mb, &inp) {
                     out.violation(None, format!("a merged answer {:?} is not an instance of the resulting guidance {:?}", inp, mb), d(&log));
                     return;
@@ -345,7 +426,7 @@ pub fn run(ctx: &Ctx, out: &mut CaseOut) {
             if !may_inv {
                 // "this answer cannot change the guidance" is only right when the answer is an instance of the guidance
                 // (the anti-unifier itself may lose variable sharing; that only makes the guidance weaker)
-                let t1e: Vec<T> = t1.iter().map(erase_lt).collect();
+                let t1e: Vec<T> = t1.clone();
                 if !subst_matches(&cur_back, &t1e) {
                     // F20: MayInvalidate treats every variable of the guidance as matching anything, also when the same
                     // variable occurs twice and the answer puts different things there
@@ -401,6 +482,8 @@ pub fn run(ctx: &Ctx, out: &mut CaseOut) {
         // Solution::combine: commutative, never claims more than either candidate
         let mk = |r: &mut Rng, kind: usize, tys: &Vec<T>, kinds: &Vec<K>| -> Solution<I> {
             let c = canon_subst(tys, kinds, r);
+            // candidates for one query: the unknowns they leave open live in the query's (root) universe
+            let c = Canonical { binders: CanonicalVarKinds::from_iter(i, c.binders.iter(i).map(|b| CanonicalVarKind::new(b.kind.clone(), UniverseIndex::root()))), value: c.value };
             match kind {
                 0 => Solution::Unique(Canonical { binders: c.binders.clone(), value: ConstrainedSubst { subst: c.value.clone(), constraints: Constraints::empty(i) } }),
                 1 => Solution::Ambig(Guidance::Definite(c)),
@@ -410,9 +493,11 @@ pub fn run(ctx: &Ctx, out: &mut CaseOut) {
         };
         let (ta, ka) = gen_subst(&mut r, n, None);
         let ta: Vec<T> = ta.iter().map(|t| fix_vars(t, &ka)).collect();
+        let (ta, ka) = canonize(&ta, &ka);
         let same = r.chance(35);
         let (tb, kb) = if same { (ta.clone(), ka.clone()) } else { gen_subst(&mut r, n, Some(&ta)) };
         let tb: Vec<T> = tb.iter().map(|t| fix_vars(t, &kb)).collect();
+        let (tb, kb) = canonize(&tb, &kb);
         let (kind_a, kind_b) = (r.below(4), r.below(4));
         // identical binders when the substitutions are meant to be the same
         let mut r2 = r.clone();
@@ -435,7 +520,7 @@ pub fn run(ctx: &Ctx, out: &mut CaseOut) {
             if let Ok(pat) = pat {
                 for (cand, tys) in [(&a, &ta), (&b, &tb)] {
                     if cand.definite_subst(i).is_some() {
-                        let e: Vec<T> = tys.iter().map(erase_lt).collect();
+                        let e: Vec<T> = tys.clone();
                         if !subst_matches(&pat, &e) {
                             out.violation(None, "the combined solution's definite substitution excludes a candidate's definite substitution".to_string(), dd());
                             return;
